@@ -2,6 +2,11 @@ import GeoVerif.Series.GeodSeries
 import GeoVerif.Series.GeodTrig
 import GeoVerif.Model.Clenshaw
 import GeoVerif.Spec.RealInst
+import GeoVerif.Model.GeodLine
+import GeoVerif.Proofs.GeodLine
+import Mathlib.Tactic.LinearCombination
+import Mathlib.Tactic.Positivity
+import Mathlib.Tactic.NormNum
 import Mathlib.Tactic.Ring
 import Mathlib.Tactic.Linarith
 import Mathlib.Tactic.FieldSimp
@@ -168,5 +173,164 @@ theorem sinCosSeries_cos (x : ℝ) (cs : List ℝ) :
     have : (2 * ((0:ℕ):ℝ) - 1) * x = -x := by push_cast; ring
     rw [this, cos_neg]
   rw [h1, h2]; ring
+
+
+/-! ## The series solver itself: theorems about `Model/GeodLine.lean` read over `ℝ`
+
+The same definitions are executed in binary64 by the driver against `Geodesic`, `GeodesicLine::LineInit` and
+`GeodesicLine::GenPosition` (ops `geodconst`, `lineinit`, `genpos` of `Corr/C01.lean`). -/
+
+section Solver
+open GeoVerif.GeodLengths GeoVerif.GeodLine GeoVerif.Proofs.GeodLine
+
+/-- the Horner evaluation of `A1m1f` **is** the truncated series certified by `a1_table`: for `ε ≠ 1`,
+    `(1 − ε)(1 + A1m1f(ε))` equals the polynomial `onePlusT A1m1f` evaluated at `ε` (which `a1_table` proves to be
+    `Σ_j b_j² ε^{2j}` modulo `ε^{N+1}`).  Statement generic in the table; the proof script evaluates the table of the
+    current source (order 6) and is re-checked on every run. -/
+theorem a1m1f_is_table (ε : ℝ) (h : 1 - ε ≠ 0) :
+    (1 - ε) * (1 + a1m1f ε) = evalQ (onePlusT Gen.GeodSeries.A1m1f) ε := by
+  have hT : onePlusT Gen.GeodSeries.A1m1f = [1, 0, 1/4, 0, 1/64, 0, 1/256] := by decide +kernel
+  rw [hT]
+  unfold a1m1f
+  simp only [lit_real, tA1, Gen.GeodSeries.A1m1f, nN, Gen.GeodSeries.order, List.map, ofRat_real, polyval, evalQ, sq_real]
+  norm_num [List.take, List.getD, ofNat_real]
+  field_simp
+  ring
+
+/-- likewise `(1 + ε)(1 + A2m1f(ε)) = onePlusT A2m1f` evaluated at `ε` (certified by `a2_table`) -/
+theorem a2m1f_is_table (ε : ℝ) (h : 1 + ε ≠ 0) :
+    (1 + ε) * (1 + a2m1f ε) = evalQ (onePlusT Gen.GeodSeries.A2m1f) ε := by
+  have hT : onePlusT Gen.GeodSeries.A2m1f = [1, 0, -3/4, 0, -7/64, 0, -11/256] := by decide +kernel
+  rw [hT]
+  unfold a2m1f
+  simp only [lit_real, tA2, Gen.GeodSeries.A2m1f, nN, Gen.GeodSeries.order, List.map, ofRat_real, polyval, evalQ, sq_real]
+  norm_num [List.take, List.getD, ofNat_real]
+  field_simp
+  ring
+
+example : (1 : ℝ) - 1 / 100 ≠ 0 ∧ (1 : ℝ) + 1 / 100 ≠ 0 := by norm_num
+
+/-- `LineInit` leaves `(ssig1, csig1)` on the unit circle — for every input, because `cbet1 ≥ tiny > 0` -/
+theorem lineinit_sig1_norm (g : Geod ℝ) (lon1 sbet1r cbet1r salp1 calp1 : ℝ) (ht : 0 < g.tiny) :
+    let L := (lineInit g lon1 sbet1r cbet1r salp1 calp1).1
+    L.ssig1 ^ 2 + L.csig1 ^ 2 = 1 := by
+  intro L
+  show (norm2 _ _).1 ^ 2 + (norm2 _ _).2 ^ 2 = 1
+  apply norm2_unit
+  simp only [lit_real, Nat.cast_zero, Nat.cast_one]
+  by_cases hs : (norm2 (sbet1r * g.f1) cbet1r).1 = 0
+  · right
+    have : 0 < RealLike.max g.tiny (norm2 (sbet1r * g.f1) cbet1r).2 := lt_of_lt_of_le ht (le_max_left _ _)
+    exact csig1p_ne _ _ _ this hs
+  · left; exact hs
+
+example : (0 : ℝ) < (geodesic (6378137 : ℝ) (1 / 298) (1 / 10 ^ 154) (1 / 2 ^ 52)).tiny := by
+  show (0 : ℝ) < 1 / 10 ^ 154
+  positivity
+
+/-- `salp0² + calp0² = 1` when the start is not a pole (`tiny ≤` the normalised `cos β1`) and `(salp1, calp1)` is a unit vector -/
+theorem lineinit_alp0_norm (g : Geod ℝ) (lon1 sbet1r cbet1r salp1 calp1 : ℝ)
+    (hb : sbet1r * g.f1 ≠ 0 ∨ cbet1r ≠ 0) (ha : salp1 ^ 2 + calp1 ^ 2 = 1)
+    (hp : g.tiny ≤ (norm2 (sbet1r * g.f1) cbet1r).2) :
+    let L := (lineInit g lon1 sbet1r cbet1r salp1 calp1).1
+    L.salp0 ^ 2 + L.calp0 ^ 2 = 1 := by
+  intro L
+  have hn := norm2_unit (sbet1r * g.f1) cbet1r hb
+  show (salp1 * RealLike.max g.tiny (norm2 (sbet1r * g.f1) cbet1r).2) ^ 2
+      + (RealLike.hypot calp1 (salp1 * (norm2 (sbet1r * g.f1) cbet1r).1)) ^ 2 = 1
+  have hm : RealLike.max g.tiny (norm2 (sbet1r * g.f1) cbet1r).2 = (norm2 (sbet1r * g.f1) cbet1r).2 := max_eq_right hp
+  rw [hm, hypot_real, Real.sq_sqrt (by positivity)]
+  linear_combination (salp1 ^ 2) * hn + ha
+
+/-- non-vacuity: a start on the equator heading north-east on the unit sphere (`f1 = 1`, `tiny = 10⁻³`) -/
+example : ((0 : ℝ) * 1 ≠ 0 ∨ (1 : ℝ) ≠ 0) ∧ ((3 / 5 : ℝ) ^ 2 + (4 / 5) ^ 2 = 1) ∧ ((1 / 1000 : ℝ) ≤ (norm2 ((0 : ℝ) * 1) 1).2) := by
+  refine ⟨Or.inr one_ne_zero, by norm_num, ?_⟩
+  simp [norm2, hypot_real]
+  norm_num
+
+/-- `sig2 = sig1 + sig12` stays on the unit circle -/
+theorem genpos_sig2_norm (L : Line ℝ) (arcmode : Bool) (s sk ck : ℝ) (un : Bool)
+    (h1 : L.ssig1 ^ 2 + L.csig1 ^ 2 = 1) (hk : arcmode = true → sk ^ 2 + ck ^ 2 = 1)
+    (hnd : NonDegenerate L arcmode s sk ck) :
+    let P := genPosition L arcmode s sk ck un
+    P.ssig2 ^ 2 + P.csig2 ^ 2 = 1 := by
+  intro P
+  have ha := arcOf_unit L arcmode s sk ck hk
+  unfold NonDegenerate csig2pre at hnd
+  show (L.ssig1 * (arcOf L arcmode s sk ck).2.2.1 + L.csig1 * (arcOf L arcmode s sk ck).2.1) ^ 2
+     + (if RealLike.eqb _ _ = true then L.tiny else (L.csig1 * (arcOf L arcmode s sk ck).2.2.1 - L.ssig1 * (arcOf L arcmode s sk ck).2.1)) ^ 2 = 1
+  simp only [eqb_real, lit_real, Nat.cast_zero, decide_eq_true_eq]
+  rw [if_neg hnd]
+  linear_combination (L.ssig1 ^ 2 + L.csig1 ^ 2) * ha + h1
+
+/-- **Clairaut's relation at the returned point**: with `sin α2 = salp2 / hypot(salp2, calp2)` (the normalisation
+    `atan2d` performs implicitly), `sin α2 · cos β2 = sin α0 = sin α1 · cos β1` -/
+theorem clairaut (L : Line ℝ) (arcmode : Bool) (s sk ck : ℝ) (un : Bool) (hnd : NonDegenerate L arcmode s sk ck) :
+    let P := genPosition L arcmode s sk ck un
+    P.salp2 / RealLike.hypot P.salp2 P.calp2 * P.cbet2 = L.salp0 := by
+  intro P
+  obtain ⟨_, _, h3, h4, h5, _⟩ := genpos_nd L arcmode s sk ck un hnd
+  show P.salp2 / RealLike.hypot P.salp2 P.calp2 * P.cbet2 = L.salp0
+  rw [h4, h5, h3]
+  exact div_mul_cancel₀ _ hnd
+
+/-- the returned `(sbet2, cbet2)` is a unit vector (so `lat2 = atan2d(sbet2, f1·cbet2)` is the geographic latitude of
+    reduced latitude `β2`), given unit `(salp0, calp0)`, `(ssig1, csig1)` and arc -/
+theorem genpos_bet2_norm (L : Line ℝ) (arcmode : Bool) (s sk ck : ℝ) (un : Bool) (hnd : NonDegenerate L arcmode s sk ck)
+    (h0 : L.salp0 ^ 2 + L.calp0 ^ 2 = 1) (h1 : L.ssig1 ^ 2 + L.csig1 ^ 2 = 1) (hk : arcmode = true → sk ^ 2 + ck ^ 2 = 1) :
+    let P := genPosition L arcmode s sk ck un
+    P.sbet2 ^ 2 + P.cbet2 ^ 2 = 1 := by
+  intro P
+  obtain ⟨_, _, h3, _, _, h6⟩ := genpos_nd L arcmode s sk ck un hnd
+  have ha := arcOf_unit L arcmode s sk ck hk
+  show P.sbet2 ^ 2 + P.cbet2 ^ 2 = 1
+  rw [h6, h3, hypot_real, Real.sq_sqrt (by positivity)]
+  unfold ssig2of csig2pre
+  linear_combination (L.calp0 ^ 2 * (L.ssig1 ^ 2 + L.csig1 ^ 2)) * ha + L.calp0 ^ 2 * h1 + h0
+
+/-- non-vacuity of `NonDegenerate` and of the unit-vector hypotheses: the equator of the unit sphere -/
+example : NonDegenerate exLine true 90 1 0 ∧ exLine.salp0 ^ 2 + exLine.calp0 ^ 2 = 1 ∧ exLine.ssig1 ^ 2 + exLine.csig1 ^ 2 = 1 :=
+  ⟨exLine_nd _ _ _ _, by simp [exLine], by simp [exLine]⟩
+
+/-- **distance for a given arc** (Karney 2013 eq. 7, 15): in arc mode, with `σ12 = a12·degree`, `(ssig1, csig1) = (sin σ1, cos σ1)`,
+    `B11 = Σ C1_l sin 2lσ1` (as `LineInit` computes it) and the kernel `sincosd(a12) = (sin σ12, cos σ12)`,
+    `s12 = b·(I1(σ1 + σ12) − I1(σ1))`, `I1(σ) = (1 + A1m1)(σ + Σ_l C1_l sin 2lσ)`.  No hypothesis on the coefficients. -/
+theorem genpos_arc_s12 (L : Line ℝ) (a12 σ1 : ℝ) (un : Bool)
+    (h1 : L.ssig1 = sin σ1 ∧ L.csig1 = cos σ1) (hB : L.B11 = dsumSin σ1 1 L.C1a) :
+    let σ12 := a12 * (degree : ℝ)
+    (genPosition L true a12 (sin σ12) (cos σ12) un).s12 =
+      L.b * ((1 + L.A1m1) * ((σ1 + σ12) + dsumSin (σ1 + σ12) 1 L.C1a) - (1 + L.A1m1) * (σ1 + dsumSin σ1 1 L.C1a)) := by
+  intro σ12
+  have hs : L.ssig1 * cos σ12 + L.csig1 * sin σ12 = sin (σ1 + σ12) := by rw [h1.1, h1.2, sin_add]
+  have hc : L.csig1 * cos σ12 - L.ssig1 * sin σ12 = cos (σ1 + σ12) := by rw [h1.1, h1.2, cos_add]
+  show L.b * ((_ + L.A1m1) * σ12 + (_ + L.A1m1) *
+      (sinCosSeries true (L.ssig1 * cos σ12 + L.csig1 * sin σ12) (L.csig1 * cos σ12 - L.ssig1 * sin σ12) L.C1a - L.B11)) = _
+  simp only [lit_real, Nat.cast_one]
+  rw [hs, hc, sinCosSeries_sin, hB]
+  ring
+
+/-- one more circuit on the auxiliary sphere (same `sincosd` values, `a12 + 360`): same latitude and azimuth,
+    and the distance grows by `2π·b·A1` -/
+theorem genpos_arc_circuit (L : Line ℝ) (a12 sk ck : ℝ) (un : Bool) :
+    let P := genPosition L true a12 sk ck un
+    let Q := genPosition L true (a12 + 360) sk ck un
+    Q.lat2 = P.lat2 ∧ Q.azi2 = P.azi2 ∧ Q.ssig2 = P.ssig2 ∧ Q.csig2 = P.csig2 ∧
+    Q.s12 - P.s12 = L.b * (1 + L.A1m1) * (360 * (degree : ℝ)) := by
+  intro P Q
+  refine ⟨rfl, rfl, rfl, rfl, ?_⟩
+  show L.b * ((_ + L.A1m1) * ((a12 + 360) * degree) + _) - L.b * ((_ + L.A1m1) * (a12 * degree) + _) = _
+  have e1 (x : ℝ) : (arcOf L true x sk ck).2.1 = sk := by unfold arcOf; simp
+  have e2 (x : ℝ) : (arcOf L true x sk ck).2.2.1 = ck := by unfold arcOf; simp
+  simp only [lit_real, Nat.cast_one, e1, e2, Bool.true_or, if_true]
+  ring
+
+/-- non-vacuity of the hypotheses of `genpos_arc_s12`: the line `exLine` with `σ1 = 0` -/
+example : (exLine.ssig1 = sin 0 ∧ exLine.csig1 = cos 0) ∧ exLine.B11 = dsumSin 0 1 exLine.C1a := by
+  refine ⟨⟨by simp [exLine], by simp [exLine]⟩, ?_⟩
+  have := sinCosSeries_sin 0 (c1f (0 : ℝ))
+  simp only [sin_zero, cos_zero] at this
+  exact this
+
+end Solver
 
 end GeoVerif.Props.C01
